@@ -154,7 +154,16 @@ class Eraser {
   }
 
   bindingExpr (b) {
-    if (b.erased === undefined) b.erased = this.er(b.raw, b.env)
+    if (b.erased === undefined) {
+      if (b.erasing) {
+        // `t = t.m`: the temporary is assigned an expression that reads the temporary itself
+        this.problem('temp-self-reference', 'seq', `temporary ${b.name} is assigned an expression that mentions ${b.name} itself (${summ(b.raw)})`)
+        return { type: 'Identifier', value: b.name, span: b.span }
+      }
+      b.erasing = true
+      b.erased = this.er(b.raw, b.env)
+      b.erasing = false
+    }
     return b.erased
   }
 
@@ -520,7 +529,7 @@ const DROP_KEYS = new Set(['ctxt', 'raw', 'typeAnnotation', 'typeArguments', 'ty
 function norm (n) {
   if (Array.isArray(n)) return n.map(norm)
   if (!isObj(n)) return n
-  if (n.type === 'ParenthesisExpression') { const r = norm(n.expression); if (isObj(r)) r.$paren = true; return r }
+  if (n.type === 'ParenthesisExpression') { const r = norm(n.expression); if (isObj(r)) { r.$paren = true; for (const k of Object.keys(n)) if (k[0] === '$') r[k] = n[k] } return r }
   if (n.type === 'OptionalChainingExpression') {
     const b = norm(n.base)
     b.inChain = true
